@@ -104,8 +104,9 @@ class Snapper:
 
     def record(self, obj):
         rec = {}
+        is_ds = isinstance(obj, (self.nix.DataArray, self.nix.DataFrame))
         for name in public_properties(type(obj)):
-            if name in EXCLUDED or name in DERIVED:
+            if name == "file" or name in DERIVED or (name == "data" and is_ds):
                 continue
             try:
                 rec[name] = self.canon(getattr(obj, name))
